@@ -187,11 +187,16 @@ func verifC08DispatchParams(first verifC08Key, withEncoding bool, parsed bool) *
 	if raw == nil {
 		return nil
 	}
-	n := 4
+	n := 5
 	if withEncoding {
-		n = 5
+		n = 6
 	}
 	switch verifChoice("params.shape", n) {
+	case 4:
+		// a config object carrying one member of the Solana config vocabulary as an explicit null
+		// (every member, whether this method's parser reads it today or not; all value types: C08.parse)
+		v := verifC08OfType("first", first.want, first.strs[:1], first.nums[:1])
+		verifC08Params = []any{v, map[string]any{verifC08ConfigVocabulary[verifChoice("config.null-member", len(verifC08ConfigVocabulary))]: nil}}
 	case 0:
 		verifC08UnmarshalFails = true
 	case 1:
